@@ -4,30 +4,20 @@ import ScenicModel.Model.Expr
 
 `supportedB T env e` is a *checkable* predicate (the driver evaluates it for every generated case, so the evidence
 shows how much of the explored input space lies inside the proved fragment).  It excludes exactly the places
-where the model itself shows that Scenic's forest and plain Python differ, plus a few shapes whose proof was
-not attempted (each marked "not attempted").
+where the model itself shows that Scenic's forest and plain Python differ — nothing is excluded because its proof
+was not attempted:
+
+* `shortZero`: `Vector(1, 2, 3) + X` with `X` sampled to an all-zero sequence of fewer than three elements
+  (plain Python returns the vector through the zero-identity shortcut of the decorated operator, the
+  VectorMethodDistribution calls the undecorated method, which raises IndexError);
+* `str % x` (string formatting: outside the value universe);
+* a container that is not a Distribution indexed by a random value (Python's own `tuple.__getitem__` rejects the
+  Distribution while compiling);
+* the lazily discarded parts of raw tuples and of Vectors with random coordinates (Scenic evaluates only the element
+  that is used; plain Python evaluates, and may raise in, all of them);
+* `*v` for a Vector `v` with random coordinates (rejected by `wrapStarredValue`).
 -/
 namespace Scenic.Expr
-
-/-- `first.__op__(rest)` with the `NotImplemented` fallback differs from Python's `first op rest`:
-    `tuple.__add__(Vector)` raises instead of deferring to `Vector.__radd__`, and `tuple` has no `__sub__`. -/
-def fwdProblem (op : BinOp) (a b : Val) : Bool :=
-  match a, b with
-  | .seq _ _, .vec .. => op == .add || op == .sub
-  | _, _ => false
-
-/-- `x.__rop__(c)` with the fallback differs from Python's `c op x`: sequences and strings have no `__radd__` /
-    `__rsub__` attribute. -/
-def reflProblem (op : BinOp) (c x : Val) : Bool :=
-  match x, c with
-  | .seq _ _, .seq _ _ => op == .add
-  | .str _, .str _ => op == .add
-  | .seq _ _, .vec .. => op == .add || op == .sub
-  | _, _ => false
-
-/-- the sampled operands of an OperatorDistribution are combined as plain Python would combine them -/
-def dispOK (T : Tables) (refl : Bool) (op : BinOp) (first rest : Val) : Bool :=
-  T.pythonDispatch || !(if refl then reflProblem op rest first else fwdProblem op first rest)
 
 /-- a condition on the sampled values of two nodes (vacuous when one of them raises) -/
 def valsOK (T : Tables) (env : Env) (n m : Node) (p : Val → Val → Bool) : Bool :=
@@ -43,48 +33,50 @@ def shortZero : Val → Bool
   | .seq _ xs => allZero xs && xs.length < 3
   | _ => false
 
-/-- `VectorDistribution.__op__(self, arg)`: excluded are the operands for which the handler raises AttributeError
-    while compiling (a constant that is not a Vector, unless the handler accepts sequences) and raw tuples
-    containing random values (they are not sampled by VectorOperatorDistribution). -/
-def vhZeroArgOK (T : Tables) (arg : Node) : Bool :=
-  match arg with
-  | .const v => T.vecHandlerAcceptsSeq || (isZero3 v).isSome
-  | _ => false
-
-def vhOK (T : Tables) (op : BinOp) (refl : Bool) (arg : Node) : Bool :=
-  !arg.isRaw && (vecOpsLookup T op refl).all fun zeroIdentity => !(zeroIdentity && !arg.isLazy) || vhZeroArgOK T arg
-
-/-- `Vector.__op__(self, arg)` for a Vector `self` (constant or with random coordinates) -/
+/-- `Vector.__op__(self, arg)` for a Vector `self` (constant or with random coordinates): only a *constant* Vector
+    combined with a random operand builds a VectorMethodDistribution -/
 def vecCoreOK (T : Tables) (env : Env) (op : BinOp) (refl : Bool) (self arg : Node) : Bool :=
-  if !vecHas op refl then
-    (if arg.isDist && !refl then !arg.isVecDist && valsOK T env arg self (fun x c => dispOK T true op x c) else true)
-  else if arg.isLazy then
+  if vecHas op refl && (toDist arg).isLazy then
     (match self with
-     | .const _ => !refl && valsOK T env self arg (fun _ b => !shortZero b)
+     | .const _ => valsOK T env self arg (fun _ b => !shortZero b)
      | _ => true)
-  else arg.isConst
+  else true
 
 def vecHelperOK (T : Tables) (env : Env) (op : BinOp) (refl : Bool) (self arg : Node) : Bool :=
   vecCoreOK T env op (if op == .mul then false else refl) self arg
 
+/-- a raw tuple/list (a plain Python container holding random values) repeated with `*`: Scenic repeats the
+    container while compiling, so its elements must evaluate where plain Python evaluates them
+    (`(x, 1 / y) * 0` is `()` for Scenic, ZeroDivisionError for Python when `y` is sampled to 0) -/
+def rawMulOK (T : Tables) (env : Env) (op : BinOp) (n : Node) : Bool :=
+  op != .mul || evalsSome T env n
+
 /-- `c op r` for a constant `c` that is not a Vector -/
-def constLeftOK (T : Tables) (env : Env) (op : BinOp) (l r : Node) : Bool :=
-  if r.isVecDist then r.vty == .vector && vhOK T op true l
-  else if r.isDist then valsOK T env r l (fun x c => dispOK T true op x c)
+def constLeftOK (T : Tables) (env : Env) (op : BinOp) (r : Node) : Bool :=
+  if r.isVecDist then true
+  else if r.isDist then true
   else match r with
-    | .vecOf .. => vecHelperOK T env op true r l
-    | .rawt .. => false              -- arithmetic on raw tuples: not attempted
+    | .vecOf .. => true
+    | .rawt .. => rawMulOK T env op r
     | _ => true
 
+/-- `rawtuple op Vector(..)`: the constant Vector's reflected method builds a VectorMethodDistribution over the
+    (wrapped) tuple -/
+def rawVecOK (T : Tables) (env : Env) (op : BinOp) (l r : Node) : Bool :=
+  match r with
+  | .const (.vec ..) => vecHelperOK T env op true r l
+  | _ => true
+
 def binGenOK (T : Tables) (env : Env) (op : BinOp) (l r : Node) : Bool :=
-  if l.isVecDist then l.vty == .vector && vhOK T op false r
-  else if l.isDist then valsOK T env l r (fun a b => dispOK T false op a b)
+  if l.isVecDist then true
+  else if l.isDist then true
   else match l with
-    | .vecOf .. => vecHelperOK T env op false l r
+    | .vecOf .. => true
     | .const (.vec ..) => vecHelperOK T env op false l r
-    | .const (.str _) => op != .mod && constLeftOK T env op l r     -- `str % x` formats x: outside the model
-    | .const _ => constLeftOK T env op l r
-    | .rawt .. => false            -- arithmetic on raw tuples: not attempted
+    | .const (.str _) => op != .mod && constLeftOK T env op r     -- `str % x` formats x: outside the model
+    | .const _ => constLeftOK T env op r
+    | .rawt .. =>
+      rawMulOK T env op l && rawVecOK T env op l r
     | _ => true
 
 /-- the side condition of `forest_eval_eq_python` at a binary operator, on the built operands -/
